@@ -30,7 +30,7 @@ m = {
     "hooks": {
         "guard": "verif",
         "enable": "go build -tags verif (the harness module /verif/harness replaces nhooyr.io/websocket with /repo, so every check compiles /repo's working tree with the tag on)",
-        "baseline_off_cmd": "cd /repo && go test -vet=off -count=1 ./... && cd internal/thirdparty && go test -vet=off -count=1 ./...",
+        "baseline_off_cmd": "export GOFLAGS=-mod=mod GOPROXY=off GOSUMDB=off GOTOOLCHAIN=local; cd /repo && go test -vet=off -count=1 ./... && cd internal/thirdparty && go test -vet=off -count=1 ./...",
         "source_commits": hook_commits,
         "add_only": True,
     },
